@@ -66,6 +66,8 @@ func probe2() int {
 		return 2
 	}
 	defer x.Close()
+	at := x.query("prof_profile_types", 1, Win{0, 0})
+	fmt.Printf("EMPTY profile types: %+v\n", at)
 	good := pushRequest("logs", []Item{{"logs", 1, 0}})
 	bad := good
 	bad.Body = []byte(string(good.Body[:len(good.Body)-2]) + `,{"stream":{"x02":"zz"},"values":[["nan","x"]]}]}`)
@@ -90,11 +92,13 @@ func main() {
 	out := fs.String("out", "", "")
 	seed := fs.Int64("seed", 1, "")
 	n := fs.Int("n", 20, "")
-	_ = in
-	_ = out
-	_ = seed
-	_ = n
+	trace := fs.String("trace", "", "")
+	fs.Parse(os.Args[2:])
 	switch cmd {
+	case "history":
+		os.Exit(history(*in, *out))
+	case "record":
+		os.Exit(record(*out, *trace, *seed, *n))
 	case "probe":
 		os.Exit(probe())
 	case "probe3":
@@ -102,6 +106,5 @@ func main() {
 	case "probe2":
 		os.Exit(probe2())
 	}
-	fs.Parse(os.Args[2:])
 	os.Exit(2)
 }
